@@ -217,6 +217,7 @@ def cover_hyps(results, extra=()):
 
 CURRENT = None
 LAST_FUNC = None        # the function most recently handed to Interp.run_function
+OUTCOMES: dict = {}     # function -> outcome kinds of every path Interp.run_function explored for it in this process
 
 
 class Check:
@@ -391,6 +392,20 @@ class Check:
         violation.  `searcher(ob)` tries to produce a concrete failing input on the real code
         (replaying the solver's candidate model and/or a bounded search) and returns a payload
         dict with key 'found' (bool)."""
+        ledger0 = self.load_ledger() or {"clauses": {}}
+        # vacuity of a whole function: a function under contract all of whose explored paths raise satisfies every
+        # "whenever it returns ..." clause trivially.  Every function that returned on some path when the ledger was written
+        # carries the clause below; a change after which no path returns any more fails it by name (seed r4-C03-1).
+        for func in sorted({ob.func for ob in self.obs if ob.expect == "unsat"}):
+            kinds = OUTCOMES.get(func)
+            if not kinds:
+                continue
+            key = f"{func} :: some-call-returns-normally"
+            if "ret" in kinds:
+                self.add(Ob(func, "some-call-returns-normally", "any", [], z3.BoolVal(True), {"paths": len(kinds)}))
+            elif key in ledger0["clauses"]:
+                self.add(Ob(func, "some-call-returns-normally", "all-paths", [], z3.BoolVal(False),
+                            {"outcomes": sorted(set(kinds)), "note": "every explored path of the function raises or is cut off"}))
         self.discharge_all()
         st = self.clause_status()
         ledger = self.load_ledger() or {"clauses": {}}
